@@ -30,7 +30,9 @@ fn feature(t: &ATable, q: &AQuery, m: &ModelResult, exact: bool) -> &'static str
         return float_feature(t, q);
     }
     if exact {
-        return if has_double_avg(t, q) {
+        // sums over the 1000-3000 row tables leave f32's exact range even for the exact pool
+        // (SUM(b * b) reaches 5e6 in steps of 0.25): there the f32 defect explains a difference again
+        return if has_double_avg(t, q) || (t.rows.len() > 256 && is_double(t, &agg_cols(q))) {
             "float_f32_precision"
         } else if q.having.is_some() {
             "having"
@@ -215,7 +217,7 @@ impl Check for C03 {
         }
         if !dodge_columnar && !same(&off, &dg) {
             return Verdict::fail(
-                format!("c03.row_path_rewrite.{}", if !case.exact { float_feature(t, q) } else if has_double_avg(t, q) { "float_f32_precision" } else { "plain" }),
+                format!("c03.row_path_rewrite.{}", if !case.exact { float_feature(t, q) } else if has_double_avg(t, q) || (t.rows.len() > 256 && is_double(t, &agg_cols(q))) { "float_f32_precision" } else { "plain" }),
                 format!("row path: {}\n{}rewrite: {}\n{}", sql, show(&off), dsql, show(&dg)),
             );
         }
